@@ -93,8 +93,8 @@ func TestV6Exhaustive(t *testing.T) {
 		run.Extra("bfs_v6_"+cfg.name, fmt.Sprintf("depth=%d executed=%d applicable=%d distinct_states=%d", deep, st.executed, st.applicable, st.states))
 	}
 	for _, cfg := range v6WideConfigs() {
-		st := bfs(t, v6factory(cfg), wide, capLvl)
-		run.Extra("bfs_v6_"+cfg.name, fmt.Sprintf("depth=%d executed=%d applicable=%d distinct_states=%d", wide, st.executed, st.applicable, st.states))
+		st := bfs(t, v6factory(cfg), wide+1, capLvl) // the DHCPv6 state space is smaller: one level deeper
+		run.Extra("bfs_v6_"+cfg.name, fmt.Sprintf("depth=%d executed=%d applicable=%d distinct_states=%d", wide+1, st.executed, st.applicable, st.states))
 	}
 }
 
